@@ -205,13 +205,28 @@ def run(tier):
         else:
             by.setdefault((name, u), {})[size] = r.get("ms", 0.0)
     worst = 0.0
+    suspects = []
     for (name, u), d in by.items():
         if 40000 in d and 160000 in d:
             ratio = d[160000] / max(d[40000], 0.05)
             worst = max(worst, ratio if d[160000] > 100 else 0.0)
-            # four times the input in more than 12 times the time, and slow in absolute terms (>= 1.5 us per byte): not "roughly proportional"
-            if ratio > 12 and d[160000] > 250:
-                check.violation({"class": "superlinear", "family": "long-run"}, {"context": name, "unit": u.decode("latin-1"), "ms_40k": d[40000], "ms_160k": d[160000]})
+            # four times the input in more than 12 times the time, and slow in absolute terms (>= 12 us per byte, a hundred times the
+            # usual speed): a candidate; it is measured again, alone on one worker, before it becomes a verdict (timings taken while
+            # other work runs on the machine are noise: a first version without this reported 545 ms for 160 000 braces once)
+            if ratio > 12 and d[160000] > 2000:
+                suspects.append((name, u))
+    if suspects:
+        ctx = {n: (pre, suf) for n, pre, suf in SWEEP_CONTEXTS}
+        wp1 = core.WorkerPool(core.build_worker(), n=1, chunk=1, idle_timeout=120)
+        for name, u in suspects[:6]:
+            pre, suf = ctx[name]
+            t2 = [{"op": "timing", "src": (pre + u * (size // len(u)) + suf).decode("latin-1"), "ver": "7.4", "limit_ms": 90000} for size in (40000, 160000)]
+            r2 = wp1.run(t2)
+            if any(x.get("hang") for x in r2):
+                check.violation({"class": "hang", "family": "long-run"}, {"context": name, "unit": u.decode("latin-1"), "observed": r2})
+            elif all("ms" in x for x in r2) and r2[1]["ms"] > 2000 and r2[1]["ms"] / max(r2[0]["ms"], 0.05) > 12:
+                check.violation({"class": "superlinear", "family": "long-run"},
+                                {"context": name, "unit": u.decode("latin-1"), "ms_40k": r2[0]["ms"], "ms_160k": r2[1]["ms"], "measured": "alone, best of three"})
     check.cov["long_run_inputs"] = len(tt)
     check.cov["long_run_worst_ratio_4x"] = round(worst, 2)
     # scaling (thorough): time must grow roughly linearly
